@@ -301,7 +301,7 @@ def gen_problem(rng, cfg, zero_resid=None):
         c = z + 0.5 * rng.normal(size=n)
         rad = float(np.linalg.norm(z - c) + rng.uniform(0.3, 1.0))
         proj = [['ball', hx(c), hx(rad)]]
-        if rng.random() < 0.4:
+        if spec.get('lo') is None and rng.random() < 0.6:      # at most two user sets + box: Dykstra is slow in pure Python
             a = rng.normal(size=n)
             proj.append(['halfspace', hx(a), hx(float(a.dot(z)) + rng.uniform(0.3, 1.0) * float(np.linalg.norm(a)))])
         spec['proj'] = proj
@@ -404,6 +404,8 @@ def make_spec(seed, i, cfg):
         params['func_tol.max_iters'] = int(rng.choice([30, 60]))
     if cfg == 'proj':
         spec['maxfun'] = int(rng.choice([8, 12, 16]))
+        if rng.random() < 0.5:
+            params['dykstra.max_iters'] = 30
     if cfg == 'diag':                             # same as plain/bounds but with the diagnostic table switched on
         params['logging.save_diagnostic_info'] = True
         params['logging.save_poisedness'] = bool(rng.random() < 0.5)
